@@ -37,6 +37,7 @@ import (
 	"strconv"
 	"strings"
 	"syscall"
+	"time"
 
 	"github.com/opencontainers/go-digest"
 	ocispec "github.com/opencontainers/image-spec/specs-go/v1"
@@ -66,6 +67,18 @@ type Entry struct {
 	Target string `json:"target,omitempty"`
 	Tag    int    `json:"tag,omitempty"`
 	Mode   int    `json:"mode,omitempty"` // permission bits of r/d entries (0 = default 0644/0755)
+	Time   int    `json:"time,omitempty"` // header ModTime = 2001-01-01 + Time hours (0 = zero time: no Chtimes)
+}
+
+func stampTime(k int) time.Time { return time.Date(2001, 1, 1, k, 0, 0, 0, time.UTC) }
+
+// stampOf returns k when t is the header time number k, else 0
+func stampOf(t time.Time) int {
+	d := t.Sub(stampTime(0))
+	if d > 0 && d%time.Hour == 0 && d/time.Hour < 1000 {
+		return int(d / time.Hour)
+	}
+	return 0
 }
 
 func (e Entry) mode() int {
@@ -152,6 +165,7 @@ type objInfo struct {
 	Content string
 	Target  string
 	Ino     uint64
+	Mtime   int64
 }
 
 var harnessFiles = map[string]bool{"/cases.txt": true, "/impl.txt": true, "/oracle.txt": true, "/stats.json": true, "/tmp": true}
@@ -185,10 +199,12 @@ func snapshotOutside() map[string]objInfo {
 		default:
 			o.Type = "o"
 		}
+		o.Mtime = fi.ModTime().UnixNano()
 		if p == wdDir {
 			// the working directory's own attributes are the store's; its entry in the
 			// parent directory (existence, type, identity) is not
 			o.Mode = 0
+			o.Mtime = 0
 		}
 		if p != "/" {
 			out[p] = o
@@ -237,6 +253,9 @@ func diffSnap(a, b map[string]objInfo) (string, string) {
 			return "remoded", fmt.Sprintf("%s mode changed %o -> %o", k, x.Mode, y.Mode)
 		case x.Ino != y.Ino:
 			return "replaced", fmt.Sprintf("%s replaced (inode changed)", k)
+		case x.Mtime != y.Mtime:
+			return "touched", fmt.Sprintf("%s modification time changed %s -> %s", k,
+				time.Unix(0, x.Mtime).UTC().Format(time.RFC3339), time.Unix(0, y.Mtime).UTC().Format(time.RFC3339))
 		}
 	}
 	return "", ""
@@ -251,13 +270,20 @@ func listing() string {
 			return
 		}
 		hp := hex.EncodeToString([]byte(p))
+		// outside the working directory: which header time (if any) the object carries
+		st := ""
+		if !(p == wdDir || strings.HasPrefix(p, wdDir+"/")) {
+			if k := stampOf(fi.ModTime()); k > 0 {
+				st = "@" + strconv.Itoa(k)
+			}
+		}
 		switch {
 		case fi.Mode()&os.ModeSymlink != 0:
 			t, _ := os.Readlink(p)
 			items = append(items, hp+":l"+common.Hex(t))
 		case fi.IsDir():
 			if p != "/" {
-				items = append(items, fmt.Sprintf("%s:d%d", hp, fi.Mode().Perm()))
+				items = append(items, fmt.Sprintf("%s:d%d%s", hp, fi.Mode().Perm(), st))
 			}
 			des, _ := os.ReadDir(p)
 			for _, de := range des {
@@ -270,7 +296,7 @@ func listing() string {
 		case fi.Mode().IsRegular():
 			b, _ := os.ReadFile(p)
 			if _, err := strconv.Atoi(string(b)); err == nil {
-				items = append(items, fmt.Sprintf("%s:f%sm%d", hp, string(b), fi.Mode().Perm()))
+				items = append(items, fmt.Sprintf("%s:f%sm%d%s", hp, string(b), fi.Mode().Perm(), st))
 			} else {
 				items = append(items, hp+":f?"+hex.EncodeToString(b))
 			}
@@ -290,6 +316,10 @@ func buildTarGz(es []Entry) []byte {
 	tw := tar.NewWriter(gz)
 	for _, e := range es {
 		h := &tar.Header{Name: e.Name, Format: tar.FormatPAX}
+		if e.Time > 0 {
+			h.ModTime = stampTime(e.Time)
+			h.AccessTime = stampTime(e.Time)
+		}
 		var body []byte
 		switch e.Kind {
 		case "r":
@@ -375,12 +405,13 @@ func modelLine(c Case, cfg string) string {
 			default:
 				fmt.Fprintf(&sb, " o %s", common.Hex(e.Name))
 			}
+			fmt.Fprintf(&sb, " %d", e.Time)
 		}
 	}
 	return sb.String()
 }
 
-var modelCfg = "11111"
+var modelCfg = "111111"
 
 func runCase(c Case) {
 	id := run.NewID()
@@ -941,6 +972,20 @@ func genTemplate(r *common.Rand) Case {
 	return c
 }
 
+// stamped gives most archive entries a header time (distinct per entry of the case)
+func stamped(r *common.Rand, c Case) Case {
+	k := 0
+	for i := range c.Pushes {
+		for j := range c.Pushes[i].Entries {
+			k++
+			if r.Chance(3, 4) {
+				c.Pushes[i].Entries[j].Time = k
+			}
+		}
+	}
+	return c
+}
+
 func entryAlphabet(names, targets []string) []Entry {
 	var a []Entry
 	for _, n := range names {
@@ -961,6 +1006,7 @@ func enumerate(alpha []Entry, k int, tail []Push) {
 			if es[i].Kind == "r" {
 				es[i].Tag = i + 1
 			}
+			es[i].Time = i + 1
 		}
 		c := Case{Prep: basePrep(), Origin: fmt.Sprintf("exhaustive-%d", k)}
 		c.Pushes = append([]Push{{Kind: "U", Title: "t", Entries: es}}, tail...)
@@ -1015,7 +1061,7 @@ func main() {
 	run = common.Start("C11")
 	defer run.Finish()
 	run.Rule = "exhaustive: every 2-entry archive over 3 names x {reg,dir,symlink,hardlink} x 6 targets (thorough: + follow-up blobs, + all 3-entry archives over a sub-alphabet); random: cases = pre-populated tree + 1..3 pushes (named blob or tar+gzip to unpack, 1..6 entries over reg/dir/symlink/hardlink/other); names, titles and link targets from a grammar of segments, '..', '.', empty segments, absolute forms, earlier entry names and cwd decoys, plus perturbed attack templates; distinct = distinct case line; non-trivial = at least one push accepted"
-	if v := os.Getenv("C11_CFG"); len(v) == 5 {
+	if v := os.Getenv("C11_CFG"); len(v) == 6 {
 		modelCfg = v
 	}
 	var replayData []byte
@@ -1066,9 +1112,9 @@ func main() {
 	n := run.Scale(800, 12000)
 	for i := 0; i < n; i++ {
 		if i%5 == 0 {
-			runCase(genTemplate(r))
+			runCase(stamped(r, genTemplate(r)))
 		} else {
-			runCase(genRandom(r))
+			runCase(stamped(r, genRandom(r)))
 		}
 	}
 	os.RemoveAll(sbRoot)
